@@ -11,9 +11,19 @@ package ipv6
 //@ define epOK(e) = e != nil && e.dispatcher != nil && e.linkEP != nil && e.linkAddrCache != nil
 //@ define vvOK(vv) = vv.size == vsum(vv.views) && 0 <= vv.size && vv.size <= 1 << 40
 
-//@ func icmpChecksum props C07 C06
+// C13/C06: for an 8-byte ICMPv6 header (echo) and a payload in one view, the value returned is
+// the checksum that makes the message verify: pseudo-header (addresses, 32-bit upper-layer
+// length, next header 58), header with its checksum field taken as zero, and payload sum
+// with the result to zero in one's-complement arithmetic.
+//@ define ph6(src, dst, n) = wsum16(src, 0, len(src)) + wsum16(dst, 0, len(dst)) + uint64(uint32(n) >> 16) + uint64(uint32(n) & 0xffff) + 58
+//@ func icmpChecksum props C07 C06 C13
 //@   requires len(h) >= 4
+//@   ensures implies(len(h) == 8 && len(vv.views) == 1 && len(vv.views[0]) <= 65535 && len(src) == 16 && len(dst) == 16,
+//@             oc16(uint64(result) + ph6(src, dst, 8 + vv.size) + wsum16(h, 0, 2) + wsum16(h, 4, 8) + wsum16(vv.views[0], 0, len(vv.views[0]))) == 0)
+//@   ensures h[2] == old(h[2]) && h[3] == old(h[3])
 //@   loop 1 invariant -1 <= rangeindex && rangeindex < len(vv.views)
+//@   loop 1 invariant implies(len(vv.views) == 1 && len(vv.views[0]) <= 65535 && len(src) == 16 && len(dst) == 16,
+//@             oc16(uint64(xsum)) == oc16(ph6(src, dst, len(h) + vv.size) + ite(rangeindex == 0, wsum16(vv.views[0], 0, len(vv.views[0])), 0)))
 //@   modifies h[2], h[3]
 
 //@ func (*endpoint).HandlePacket props C07
@@ -22,10 +32,26 @@ package ipv6
 
 // C12 (neighbour discovery): a neighbour solicitation is answered only if the link address
 // cache says the target address (exactly bytes 8..24 of the message) is one of ours.
-//@ func (*endpoint).handleICMP props C07 C12
+//@ func (*endpoint).handleICMP props C07 C12 C13
 //@   requires epOK(e) && r != nil && vvOK(vv)
 //@   at_call CheckLocalAddress requires len(addr) == 16 && forall(k, 0, 16, byteat(addr, k) == old(vv.views[0])[8 + k]) && protocol == ProtocolNumber
 //@   at_call WritePacket requires implies(old(vv.views[0])[0] == uint8(header.ICMPv6NeighborSolicit), ghost(lastLocalCheck) != 0 && protocol == header.ICMPv6ProtocolNumber)
+// C13 (echo): the only message sent in answer to an echo request is an ICMPv6 echo reply
+// whose 8-byte header carries type 129, the request's code, identifier and sequence number,
+// whose payload is the request's bytes after its 8-byte header (the very views, trimmed),
+// from the address that was pinged to the requester (the route's addresses are used as they
+// are), and - for a payload in one view - whose checksum verifies.
+//@   at_call WritePacket requires implies(old(vv.views[0][0]) == uint8(header.ICMPv6EchoRequest), protocol == header.ICMPv6ProtocolNumber && recv == r && len(hdr.buf) - hdr.usedIdx == 8)
+//@   at_call WritePacket requires implies(old(vv.views[0][0]) == uint8(header.ICMPv6EchoRequest), hdr.buf[hdr.usedIdx] == uint8(header.ICMPv6EchoReply) && hdr.buf[hdr.usedIdx + 1] == old(vv.views[0][1]))
+//@   at_call WritePacket requires implies(old(vv.views[0][0]) == uint8(header.ICMPv6EchoRequest), forall(k, 4, 8, hdr.buf[hdr.usedIdx + k] == old(vv.views[0][k])))
+//@   at_call WritePacket requires implies(old(vv.views[0][0]) == uint8(header.ICMPv6EchoRequest), payload.size == old(vv.size) - 8 && arr(payload.views) == old(arr(vv.views)))
+//@   at_call WritePacket requires implies(old(vv.views[0][0]) == uint8(header.ICMPv6EchoRequest) && old(len(vv.views[0])) > 8, len(payload.views) == old(len(vv.views)) && off(payload.views) == old(off(vv.views))
+//@             && arr(payload.views[0]) == old(arr(vv.views[0])) && off(payload.views[0]) == old(off(vv.views[0])) + 8 && len(payload.views[0]) == old(len(vv.views[0])) - 8
+//@             && forall(k, 1, len(payload.views), buffer.sameView(payload.views[k], old(vv.views[k]))))
+//@   at_call WritePacket requires implies(old(vv.views[0][0]) == uint8(header.ICMPv6EchoRequest) && old(len(vv.views[0])) == 8, len(payload.views) == old(len(vv.views)) - 1 && off(payload.views) == old(off(vv.views)) + 1
+//@             && forall(k, 0, len(payload.views), buffer.sameView(payload.views[k], old(vv.views[k + 1]))))
+//@   at_call WritePacket requires implies(old(vv.views[0][0]) == uint8(header.ICMPv6EchoRequest) && len(payload.views) == 1 && len(payload.views[0]) <= 65535 && len(r.LocalAddress) == 16 && len(r.RemoteAddress) == 16,
+//@             oc16(wsum16(hdr.buf, hdr.usedIdx, hdr.usedIdx + 8) + ph6(r.LocalAddress, r.RemoteAddress, 8 + payload.size) + wsum16(payload.views[0], 0, len(payload.views[0]))) == 0)
 //@   modifies everything(), modset(ARPGHOSTS)
 
 //@ func (*endpoint).handleControl props C07
